@@ -155,7 +155,15 @@ pub fn tree_depths(p: &mut Prng, n: usize) -> Vec<usize> {
 
 pub fn tap_tree(p: &mut Prng, n_leaves: usize) -> TapTree {
     let mut b = TaprootBuilder::new();
-    for d in tree_depths(p, n_leaves) {
+    // rarely a maximally deep comb: leaves at depths 1, 2, ..., 127, 128, 128 (the depth limit of the format)
+    let depths = if n_leaves >= 5 && p.chance(1, 40) {
+        let mut d: Vec<usize> = (1..=128).collect();
+        d.push(128);
+        d
+    } else {
+        tree_depths(p, n_leaves)
+    };
+    for d in depths {
         b = b.add_leaf_with_ver(d, gen::script(p, 40), leaf_version(p)).expect("dfs order");
     }
     TapTree::from_inner(b).expect("complete")
